@@ -66,12 +66,12 @@ def eval_hsm(cases):
         fails, facts, pending = hsm11.run_case(c)
         out.append([fails, facts])
         pend.append(pending)
-    reqs = [('c11hsm', req) for p in pend for (req, _obs) in p]
+    reqs = [(kind, req) for p in pend for (kind, req, _obs) in p]
     answers = common.batch_driver(reqs) if reqs else []
     pos = 0
     for (fails, facts), p in zip(out, pend):
-        for _req, obs in p:
-            r = hsm11.correspond(obs, answers[pos])
+        for kind, _req, obs in p:
+            r = hsm11.correspond(kind, obs, answers[pos])
             pos += 1
             if r and not any(f[0] == 'correspondence' for f in fails):
                 fails.append(('correspondence', r[0], r[1], None))
